@@ -26,6 +26,7 @@ import (
 	v2 "mosn.io/mosn/pkg/config/v2"
 	_ "mosn.io/mosn/pkg/filter/stream/transcoder"
 	_ "mosn.io/mosn/pkg/filter/stream/transcoder/httpconv"
+	"mosn.io/mosn/pkg/types"
 	"pgregory.net/rapid"
 
 	"verif/ev"
@@ -315,13 +316,13 @@ func shortHdr(h [][2]string) string {
 }
 
 type httpRig struct {
-	down, up string
-	cs       *mesh.Case
-	up1      *mesh.RawServer
-	seen     chan *seenReq
-	mu       sync.Mutex
-	plan     *httpResp // response the upstream gives to the next request
-	badPreface *int32  // HTTP/2 upstream: connections that did not start with the client preface
+	down, up   string
+	cs         *mesh.Case
+	up1        *mesh.RawServer
+	seen       chan *seenReq
+	mu         sync.Mutex
+	plan       *httpResp // response the upstream gives to the next request
+	badPreface *int32    // HTTP/2 upstream: connections that did not start with the client preface
 	// clients
 	h1  net.Conn
 	br  *bufio.Reader
@@ -906,7 +907,12 @@ func tarsEqualExceptID(a, b []byte, response bool) (bool, string) {
 }
 
 // TestPropE2EX: xprotocol frames pass through an X listener byte-identical except the request id.
+// xReadTimeout replaces types.DefaultConnReadTimeout (15 s) while part e2e-x runs, so that a peer's stall in the middle
+// of a frame can outlast the proxy's read timeout within a case.
+const xReadTimeout = 40 * time.Millisecond
+
 func TestPropE2EX(t *testing.T) {
+	types.DefaultConnReadTimeout = xReadTimeout
 	for _, p := range codec.Protocols {
 		p := p
 		t.Run(p, func(t *testing.T) {
@@ -925,6 +931,19 @@ func xCase(rt *rapid.T, p string) {
 	type xch struct {
 		req, resp *codec.Frame
 		reqBytes  []byte
+		// a peer stalls for three read timeouts after the first stallAt bytes of the request ("request") or of the
+		// response ("response")
+		stall   string
+		stallAt int
+	}
+	genStall := func(n int) int {
+		if n < 2 {
+			return 0
+		}
+		if n > 140 && rapid.Bool().Draw(rt, "stallNearHead") {
+			return rapid.IntRange(1, 127).Draw(rt, "stallAtHead")
+		}
+		return rapid.IntRange(1, n-1).Draw(rt, "stallAt")
 	}
 	var xs []xch
 	usedIDs := map[uint64]bool{}
@@ -952,6 +971,18 @@ func xCase(rt *rapid.T, p string) {
 		if req.Kind == "request" {
 			x.resp = holdFrame(codec.GenFrame(p, big).Filter(func(f *codec.Frame) bool { return f.Kind == "response" })).Draw(rt, "response").P
 		}
+		switch rapid.IntRange(0, 5).Draw(rt, "stall") {
+		case 0:
+			if x.stallAt = genStall(len(x.reqBytes)); x.stallAt > 0 {
+				x.stall = "request"
+			}
+		case 1:
+			if x.resp != nil {
+				if x.stallAt = genStall(len(x.resp.Bytes)); x.stallAt > 0 {
+					x.stall = "response"
+				}
+			}
+		}
 		xs = append(xs, x)
 	}
 	if len(xs) == 0 {
@@ -961,6 +992,7 @@ func xCase(rt *rapid.T, p string) {
 	// upstream: answers a request with the planned response whose id is set to the id it received
 	var mu sync.Mutex
 	planByBody := map[string]*codec.Frame{} // keyed by request bytes with the id zeroed
+	splitByBody := map[string]int{}
 	up := mesh.NewUpstream(p, func(r *mesh.Req) mesh.Action {
 		id, err := reqFrameID(p, r.Frame)
 		if err != nil {
@@ -975,7 +1007,7 @@ func xCase(rt *rapid.T, p string) {
 				if resp == nil {
 					return mesh.Action{Kind: "drop"}
 				}
-				return mesh.Action{Kind: "reply", Frame: setID(p, resp, resp.Bytes, id)}
+				return mesh.Action{Kind: "reply", Frame: setID(p, resp, resp.Bytes, id), SplitAt: splitByBody[k], SplitPause: 3 * xReadTimeout}
 			}
 		}
 		return mesh.Action{Kind: "drop"}
@@ -1018,7 +1050,16 @@ func xCase(rt *rapid.T, p string) {
 		if i > 0 {
 			classes = append(classes, "same-connection-followup")
 		}
-		canon := append([]byte(p+"|"), x.reqBytes...)
+		if x.stall != "" {
+			cl := "stall-beyond-read-timeout:" + x.stall
+			classes = append(classes, cl)
+			if x.stallAt >= 129 {
+				classes = append(classes, cl+":>128-bytes-pending")
+			} else if i > 0 {
+				classes = append(classes, cl+":<128-bytes-pending-on-a-used-connection")
+			}
+		}
+		canon := append([]byte(fmt.Sprintf("%s|%s%d|", p, x.stall, x.stallAt)), x.reqBytes...)
 		if x.resp != nil {
 			canon = append(canon, x.resp.Bytes...)
 		}
@@ -1038,13 +1079,29 @@ func xCase(rt *rapid.T, p string) {
 		respBefore, _ := cl.Responses()
 		mu.Lock()
 		planByBody[string(x.reqBytes)] = x.resp
+		delete(splitByBody, string(x.reqBytes))
+		if x.stall == "response" {
+			splitByBody[string(x.reqBytes)] = x.stallAt
+		}
 		mu.Unlock()
-		if err := cl.Send(x.reqBytes); err != nil {
+		if x.stall == "request" {
+			if err := cl.Send(x.reqBytes[:x.stallAt]); err != nil {
+				fail("client-write-failed", "%v", err)
+			}
+			time.Sleep(3 * xReadTimeout)
+			if err := cl.Send(x.reqBytes[x.stallAt:]); err != nil {
+				fail("client-write-failed", "second part: %v", err)
+			}
+		} else if err := cl.Send(x.reqBytes); err != nil {
 			fail("client-write-failed", "%v", err)
 		}
-		// wait for the upstream to see it
+		// wait for the upstream to see it (a frame lost to a stall shows only as silence: do not wait as long for it)
 		var seen *mesh.Req
-		end := time.Now().Add(exchangeDeadline)
+		deadline := exchangeDeadline
+		if x.stall != "" {
+			deadline = 5 * time.Second
+		}
+		end := time.Now().Add(deadline)
 		for time.Now().Before(end) {
 			if lg := up.Log(); len(lg) > before {
 				seen = lg[before]
@@ -1073,7 +1130,7 @@ func xCase(rt *rapid.T, p string) {
 		if x.resp == nil {
 			continue
 		}
-		fs, closed := cl.WaitN(len(respBefore)+1, exchangeDeadline)
+		fs, closed := cl.WaitN(len(respBefore)+1, deadline)
 		if len(fs) <= len(respBefore) {
 			fail("response-not-delivered", "no response frame reached the client (connection closed=%v)", closed)
 		}
@@ -1156,11 +1213,11 @@ func sameExceptID(p string, a, b []byte) bool {
 // TCP proxy
 
 type tcpScript struct {
-	C2S, S2C     [][]byte // chunk writes of each side (the closer's last Final chunks are written right before it closes)
-	GapC, GapS   []int    // ms pause after chunk i
-	Closer       string   // "client" | "server"
-	Final        int      // number of trailing chunks of the closer written back-to-back just before close
-	EarlyWrite   bool     // client starts writing before the proxy had a chance to connect upstream
+	C2S, S2C   [][]byte // chunk writes of each side (the closer's last Final chunks are written right before it closes)
+	GapC, GapS []int    // ms pause after chunk i
+	Closer     string   // "client" | "server"
+	Final      int      // number of trailing chunks of the closer written back-to-back just before close
+	EarlyWrite bool     // client starts writing before the proxy had a chance to connect upstream
 }
 
 type chunkSpec struct {
